@@ -240,6 +240,14 @@ uint64_t api_call(const Op &op, const Vals &v_in, const Prefill &pf, bool &ok) {
             // beyond the size), find; then a smaller build on the same object
             varintDict *dict = varintDictCreate();
             if (dict) {
+                if (pf.kind == 1) {
+                    // contexts with garbage residue also hand over an object that an earlier call has
+                    // used: Build on it must give what Build on a new object gives (here a table large
+                    // enough for two-byte indices)
+                    std::vector<uint64_t> wide(300 + (pf.w & 255));
+                    for (size_t i = 0; i < wide.size(); i++) wide[i] = (i + 1) * 0x9e3779b97f4a7c15ULL;
+                    (void)varintDictBuild(dict, wide.data(), wide.size());
+                }
                 for (int round = 0; round < 2; round++) {
                     size_t cnt = round == 0 ? n : std::max<size_t>(1, n / 3);
                     int rc = varintDictBuild(dict, in, cnt);
@@ -249,6 +257,13 @@ uint64_t api_call(const Op &op, const Vals &v_in, const Prefill &pf, bool &ok) {
                     d.u64((uint64_t)varintDictFind(dict, in[0]));
                     d.u64((uint64_t)varintDictFind(dict, in[n - 1] ^ 1));
                     d.u64(varintDictEncodedSizeWithDict(dict, cnt));
+                    if (rc == 0) {
+                        Buf enc2(varintDictEncodedSizeWithDict(dict, cnt) + dict->size * 9 + 4096, pf, 4);
+                        size_t w2 = varintDictEncodeWithDict(enc2.p, dict, in, cnt);
+                        d.u64(w2);
+                        d.bytes(enc2.p, std::min(w2, enc2.n));
+                        ok &= enc2.intact();
+                    }
                 }
                 varintDictFree(dict);
             }
